@@ -89,6 +89,7 @@ struct MsgModel {
   std::vector<std::pair<std::string, int>> fields;
   std::vector<std::pair<Bytes, int>> chain;
   int poll = 0;
+  int masterLen = 0;   // bytes of master side parameters of a read message
 };
 
 static std::string decodeFields(const MsgModel& m, const Bytes& data) {
@@ -184,7 +185,7 @@ void checkL3(const plan::Plan& p, const RunData& rd, hz::RunResult* res) {
       }
     } else if (r.tag == "compose") {
       composeParts[std::to_string(r.client) + "/" + r.line.get("group")][r.line.get("part")] = &r;
-    } else if (r.tag == "read" || r.tag == "write" || r.tag == "acl" || r.tag == "auth" || r.tag == "httpdata") {
+    } else if (r.tag == "read" || r.tag == "write" || r.tag == "writechain" || r.tag == "acl" || r.tag == "auth" || r.tag == "httpdata") {
       deferred.push_back(&r);
     } else if (r.tag == "http") {
       judged++;
@@ -269,34 +270,52 @@ void checkL3(const plan::Plan& p, const RunData& rd, hz::RunResult* res) {
         for (auto& t : tokens(l.get("fields"), ',')) { size_t c2 = t.find(':'); if (c2 != std::string::npos) m.fields.push_back(std::make_pair(t.substr(0, c2), atoi(t.c_str() + c2 + 1))); }
         if (l.has("chain")) for (auto& t : tokens(l.get("chain"), ',')) { size_t c2 = t.find(':'); if (c2 != std::string::npos) m.chain.push_back(std::make_pair(ref::unhex(t.substr(0, c2)), atoi(t.c_str() + c2 + 1))); }
         m.poll = static_cast<int>(l.num("poll", 0));
+        m.masterLen = static_cast<int>(l.num("mlen", 0));
         msgs[m.name] = m;
       } else if (l.kind == "user") {
         std::string lv = l.get("levels") == "-" ? "" : l.get("levels");
         if (l.get("name") == "*") defaultLevels = lv; else users[l.get("name")] = std::make_pair(l.get("secret"), lv);
       }
     }
-    auto exchangesOf = [&](const MsgModel& m, const Bytes& suffix, int64_t from, int64_t to) {
+    auto fitsMaster = [](const MsgModel& mm, const Bytes& fullId, const Bytes& master) {
+      size_t dataLen = static_cast<size_t>(mm.masterLen);
+      if (mm.write) for (auto& f : mm.fields) dataLen += static_cast<size_t>(f.second);
+      if (mm.write && !mm.chain.empty()) return false;   // chained writes are judged by their own rule
+      if (master.size() != 5 + fullId.size() + dataLen) return false;
+      if (master[1] != mm.zz || master[2] != mm.pb || master[3] != mm.sb) return false;
+      for (size_t i = 0; i < fullId.size(); i++) if (master[5 + i] != fullId[i]) return false;
+      return true;
+    };
+    // number of definitions whose ID is a prefix of the telegram (ebusd identifies by ID, whatever the data length)
+    auto fitCount = [&](const Bytes& master) {
+      auto prefix = [&master](const MsgModel& mm, const Bytes& fullId) {
+        if (master.size() < 5 + fullId.size() || master[1] != mm.zz || master[2] != mm.pb || master[3] != mm.sb) return false;
+        return std::equal(fullId.begin(), fullId.end(), master.begin() + 5);
+      };
+      int n = 0;
+      for (auto& o : msgs) {
+        if (o.second.chain.empty()) { if (prefix(o.second, o.second.id)) n++; continue; }
+        for (auto& part : o.second.chain) { Bytes oid = o.second.id; oid.insert(oid.end(), part.first.begin(), part.first.end()); if (prefix(o.second, oid)) n++; }
+      }
+      return n;
+    };
+    // telegrams that can belong to the definition (ID and length fit). A telegram that fits a second definition as well
+    // (a longer ID whose extra bytes look like this one's data) is ambiguous: it counts where a telegram is looked for,
+    // and is left out (unambiguousOnly) where the presence of a telegram is held against ebusd.
+    auto exchangesOf = [&](const MsgModel& m, const Bytes& suffix, int64_t from, int64_t to, bool unambiguousOnly = false) {
       std::vector<const Exchange*> v;
       Bytes id = m.id;
       id.insert(id.end(), suffix.begin(), suffix.end());
-      auto fits = [](const MsgModel& mm, const Bytes& fullId, const Exchange& e) {
-        size_t dataLen = 0;
-        if (mm.write) for (auto& f : mm.fields) dataLen += static_cast<size_t>(f.second);
-        if (e.master.size() != 5 + fullId.size() + dataLen) return false;
-        if (e.master[1] != mm.zz || e.master[2] != mm.pb || e.master[3] != mm.sb) return false;
-        for (size_t i = 0; i < fullId.size(); i++) if (e.master[5 + i] != fullId[i]) return false;
-        return true;
-      };
+      auto fits = [&fitsMaster](const MsgModel& mm, const Bytes& fullId, const Exchange& e) { return fitsMaster(mm, fullId, e.master); };
       for (const Exchange& e : rd.exchanges) {
         if (e.t < from || e.t > to || !fits(m, id, e)) continue;
-        // a telegram belongs to the definition with the longest matching ID
-        bool longer = false;
+        bool other = false;
         for (auto& o : msgs) {
           if (o.second.name == m.name) continue;
-          if (o.second.chain.empty()) { if (o.second.id.size() > id.size() && fits(o.second, o.second.id, e)) longer = true; continue; }
-          for (auto& part : o.second.chain) { Bytes oid = o.second.id; oid.insert(oid.end(), part.first.begin(), part.first.end()); if (oid.size() > id.size() && fits(o.second, oid, e)) longer = true; }
+          if (o.second.chain.empty()) { if (fits(o.second, o.second.id, e)) other = true; continue; }
+          for (auto& part : o.second.chain) { Bytes oid = o.second.id; oid.insert(oid.end(), part.first.begin(), part.first.end()); if (fits(o.second, oid, e)) other = true; }
         }
-        if (!longer) v.push_back(&e);
+        if (!other || !unambiguousOnly) v.push_back(&e);
       }
       return v;
     };
@@ -349,6 +368,18 @@ void checkL3(const plan::Plan& p, const RunData& rd, hz::RunResult* res) {
       std::string mname = r->line.get("msg");
       if (!msgs.count(mname)) continue;
       const MsgModel& m = msgs[mname];
+      {
+        // a hex command names bytes, not a definition: when the bytes fit several definitions (a longer ID whose extra
+        // bytes look like the other one's data), which of them - and whose level - is meant is ebusd's choice: not judged
+        std::string kind = r->line.get("kind");
+        size_t hp = r->request.find("-h ");
+        if ((kind == "readhex" || kind == "writehex") && hp != std::string::npos) {
+          Bytes master = {rd.own};
+          Bytes rest = ref::unhex(r->request.substr(hp + 3));
+          master.insert(master.end(), rest.begin(), rest.end());
+          if (fitCount(master) != 1) { res->counters["l3.hex_command_ambiguous"]++; continue; }
+        }
+      }
       std::string prop = r->line.get("prop", r->tag == "acl" || r->tag == "httpdata" ? "C16" : "C09");
       bool g = isGranted[r];
       int64_t to = r->doneT < 0 ? rd.endT : r->doneT;
@@ -380,13 +411,43 @@ void checkL3(const plan::Plan& p, const RunData& rd, hz::RunResult* res) {
           snprintf(buf, sizeof(buf), "client %d [%s] on message %s (level %s) is not granted but was answered [%s]", r->client, r->request.c_str(), m.name.c_str(), m.level.c_str(), r->response.substr(0, 60).c_str());
           res->violate("C16", "level-not-enforced", r->line.get("kind", "read"), buf);
         }
-        auto ex = exchangesOf(m, Bytes(), r->sentT, to);
+        auto ex = exchangesOf(m, Bytes(), r->sentT, to, true);
         bool other = false;
         for (auto& w : wins) if (w.grant && w.msg == mname && w.from <= to && w.to >= r->sentT) other = true;
         if (!ex.empty() && !other && !pollGranted[mname]) {
           snprintf(buf, sizeof(buf), "client %d [%s] is not granted level %s but a telegram of %s was sent while it was served (%s)", r->client, r->request.c_str(), m.level.c_str(), m.name.c_str(),
                    ref::hex(ex[0]->master).c_str());
           res->violate("C16", "level-not-enforced", "telegram-sent " + r->line.get("kind", "read"), buf);
+        }
+        continue;
+      }
+      if (r->tag == "writechain") {
+        // every part: ID with its suffix followed by its slice of the data, in order
+        Bytes enc = ref::unhex(r->line.get("enc"));
+        std::vector<Bytes> want;
+        size_t off = 0;
+        for (auto& part : m.chain) {
+          size_t len = static_cast<size_t>(part.second);
+          Bytes t = {rd.own, m.zz, m.pb, m.sb, static_cast<uint8_t>(m.id.size() + part.first.size() + len)};
+          t.insert(t.end(), m.id.begin(), m.id.end());
+          t.insert(t.end(), part.first.begin(), part.first.end());
+          for (size_t q = 0; q < len && off + q < enc.size(); q++) t.push_back(enc[off + q]);
+          off += len;
+          want.push_back(t);
+        }
+        std::vector<const Exchange*> seen;
+        for (const Exchange& e : rd.exchanges) if (e.t >= r->sentT && e.t <= to && e.master.size() >= 5 + m.id.size() && e.master[1] == m.zz && e.master[2] == m.pb && e.master[3] == m.sb &&
+            std::equal(m.id.begin(), m.id.end(), e.master.begin() + 5)) seen.push_back(&e);
+        if (isErr && seen.empty()) {
+          snprintf(buf, sizeof(buf), "[%s] on a loaded chained write definition answered [%s] and no part reached the bus", r->request.c_str(), r->response.substr(0, 60).c_str());
+          res->violate("C09", "chained-write-rejected", r->response.substr(0, 40), buf);
+          continue;
+        }
+        size_t wi = 0;
+        for (auto e : seen) if (wi < want.size() && e->master == want[wi]) wi++;
+        if (!isErr && wi < want.size()) {
+          snprintf(buf, sizeof(buf), "[%s]: part %zu expected as %s, seen %s", r->request.c_str(), wi, ref::hex(want[wi]).c_str(), seen.empty() ? "nothing" : ref::hex(seen.back()->master).c_str());
+          res->violate("C09", "chained-write-split-mismatch", "part", buf);
         }
         continue;
       }
@@ -412,7 +473,7 @@ void checkL3(const plan::Plan& p, const RunData& rd, hz::RunResult* res) {
           res->violate(prop, prop == "C16" ? "granted-access-denied" : "false-failure", "write", buf);
         }
         // (messages are private to one client only in the c09 family; elsewhere another client may write the same message)
-        if (family == "c09") for (auto e : ex) if (e->master != want && !isErr) {
+        if (family == "c09") for (auto e : exchangesOf(m, Bytes(), r->sentT, to, true)) if (e->master != want && !isErr) {
           snprintf(buf, sizeof(buf), "[%s]: telegram %s differs from the reference encoding %s", r->request.c_str(), ref::hex(e->master).c_str(), ref::hex(want).c_str());
           res->violate(prop, "write-telegram-mismatch", "other-bytes", buf);
         }
@@ -454,6 +515,12 @@ void checkL3(const plan::Plan& p, const RunData& rd, hz::RunResult* res) {
         continue;
       }
       expect = decodeFields(m, data);
+      if (r->line.has("field")) {
+        // one field selected by name (and index among the fields of that name)
+        std::vector<std::string> vals = tokens(expect, ';');
+        size_t sel = static_cast<size_t>(r->line.num("field"));
+        expect = sel < vals.size() ? vals[sel] : "";
+      }
       if (hexForm) { Bytes full; full.push_back(static_cast<uint8_t>(data.size())); full.insert(full.end(), data.begin(), data.end()); expect = ref::hex(full); }
       if (r->response != expect) {
         // with retries or a concurrent poll, an earlier good answer inside the window is acceptable as well
@@ -467,11 +534,44 @@ void checkL3(const plan::Plan& p, const RunData& rd, hz::RunResult* res) {
         }
       }
     }
+    // the MQTT sink publishes a levelled message only if the levels configured for it grant that level
+    bool sinkOn = false;
+    for (auto& l : p.lines) if (l.kind == "mqttsink") sinkOn = true;
+    if (sinkOn) {
+      std::string sinkLevels = users.count("mqtt") ? users["mqtt"].second : defaultLevels;
+      for (auto& pb : rd.pubs) {
+        for (auto& mm : msgs) {
+          const MsgModel& m = mm.second;
+          if (pb.topic != "ebusd/" + m.circuit + "/" + m.name) continue;
+          judged++;
+          if (!m.level.empty() && !granted(m.level, sinkLevels)) {
+            char buf2[300];
+            snprintf(buf2, sizeof(buf2), "message %s (level %s) was published on [%s] at %.1f ms although the sink's levels are [%s]", m.name.c_str(), m.level.c_str(), pb.topic.c_str(), pb.t / 1e6, sinkLevels.c_str());
+            res->violate("C16", "level-not-enforced", "mqtt-sink", buf2);
+          }
+        }
+      }
+      // and it does publish what it is granted: a value that a client was given at least 10 s before the end shows up
+      for (auto& mm : msgs) {
+        const MsgModel& m = mm.second;
+        if (m.write || (!m.level.empty() && !granted(m.level, sinkLevels))) continue;
+        int64_t firstGood = -1;
+        for (auto e : exchangesOf(m, Bytes(), 0, rd.endT, true)) if (e->answered && !e->slave.empty()) { firstGood = e->t; break; }
+        if (firstGood < 0 || firstGood > rd.endT - 10000 * 1000000LL) continue;   // main loop hands updates over at the next request or after 5 s, the handler publishes within another second
+        bool pub = false;
+        for (auto& pb : rd.pubs) if (pb.topic == "ebusd/" + m.circuit + "/" + m.name && pb.t >= firstGood) pub = true;
+        if (!pub) {
+          char buf2[300];
+          snprintf(buf2, sizeof(buf2), "message %s (level [%s], sink levels [%s]) was read at %.1f ms but never published until %.1f ms", m.name.c_str(), m.level.c_str(), sinkLevels.c_str(), firstGood / 1e6, rd.endT / 1e6);
+          res->violate("C16", "granted-access-denied", "mqtt-sink", buf2);
+        }
+      }
+    }
     // a levelled message without configured poll priority must never be polled unless a granted request set one
     for (auto& mm : msgs) {
       const MsgModel& m = mm.second;
       if (m.level.empty() || m.poll > 0 || pollGranted[m.name] || family != "c16") continue;
-      for (auto e : exchangesOf(m, Bytes(), 0, rd.endT)) {
+      for (auto e : exchangesOf(m, Bytes(), 0, rd.endT, true)) {
         bool inWin = false;
         for (auto& w : wins) if (w.grant && w.msg == m.name && e->t >= w.from && e->t <= w.to) inWin = true;
         if (!inWin) {
